@@ -14,6 +14,7 @@ PROFILE = {
     "p_human": 0.3,
     "n_stations": (2, 5),
     "n_bases": (1, 4),
+    "shared_ids": 0.4,  # a base and its station under one id (ids are per kind), often with different fleets
 }
 
 
